@@ -81,6 +81,7 @@ class Sim:
         self.delivered = {"A": [], "B": []}     # (tick, digest) in delivery order
         self.frames = {"A": [], "B": []}        # emitted frames (dicts, plus tick/time)
         self.inflight = []                      # (due_time, order, src, idx, dst, flips)
+        self.arrived = set()                    # (src, idx) of frames handed to the peer unmodified
         self.order = 0
         self.dead = False
         self.next_seed = 1 + (rng.next() & 0xFFFFFF) * 4096
@@ -156,6 +157,8 @@ class Sim:
         self.inflight = [x for x in self.inflight if not (x[4] == dst and x[0] <= self.time)]
         for (_, _, src, idx, d, flips) in due:
             self.op("fwd %s %d %s%s" % (src, idx, d, "" if not flips else " " + ",".join(map(str, flips))))
+            if not flips:
+                self.arrived.add((src, idx))
 
     def recv(self, ep):
         out = self.op("%s recv" % ep)
